@@ -116,6 +116,15 @@ def check(ctx):
             return "the alternative / tree reported differs from the first alternative that matches: parse gives %s but the reference gives %s" % (got[:200], (a or "")[:200])
         return None
     core.scan(ctx, envs, run, ("stack",), t3_stack, lambda sid, f, a: "Choice" in f["P"], "choice accessor off its spec (first matching alternative)")
+
+    # leaf contents on every input form (also Span / Position sub-inputs that end inside a CRLF or a multi-byte character): the
+    # stored character / spelling / NEWLINE kind / span text is what was consumed INSIDE the given range (reference tree)
+    def t3_leaf(sid, f, x, a):
+        got = rtcat.p_core(f["P"])
+        if got != a:
+            return "leaf content differs from what was consumed: parse gives %s but the reference gives %s" % (got[:200], (a or "")[:200])
+        return None
+    core.scan(ctx, envs, run, ("misc", "uni"), t3_leaf, lambda sid, f, a: f["P"].startswith("ok@") and f["_form"] != "str", "leaf accessor off its spec")
     return ctx.finish(level="proof", trusted_base=tb.BASE + [
         "vlib/arity.py oracle: an independent string-level matcher for the literal/range/stack shapes of the harness",
         "pest::unicode tables are sampled from the real crate for the model (T2); the oracle (T3) uses Python's unicodedata"])
